@@ -3,7 +3,7 @@ They are reported separately under coverage.bounded_or_enumerative and never add
 import os, json, subprocess, time
 import assemble as A
 
-BUILD = os.path.join(A.VERIF, 'build')
+BUILD = os.environ.get('VERIF_BUILD_DEV', os.path.join(A.VERIF, 'build'))   # env override: development aid only
 
 
 def run(name, tier, seed):
